@@ -41,7 +41,7 @@ M = [
     ("c05_peewee_stale_keys", "C05", PW, "            ).execute()\n            self.update_bucket_keys()\n        else:\n            raise ValueError(\"Bucket did not exist, could not delete\")", "            ).execute()\n        else:\n            raise ValueError(\"Bucket did not exist, could not delete\")"),
     ("c05_memory_update_overwrites_name", "C05", MEM, "            if name:\n                self._metadata[bucket_id][\"name\"] = name", "            self._metadata[bucket_id][\"name\"] = name or bucket_id"),
     ("c07_replace_last_oldest_memory", "C07", MEM, "last = sorted(self.db[bucket_id], key=lambda e: e.timestamp)[-1]", "last = sorted(self.db[bucket_id], key=lambda e: e.timestamp + e.duration)[-1]"),
-    ("c01_sqlite_trunc_ms", "C01", SQ, "        endtime = datetime.fromtimestamp(row[2] / 1000000, timezone.utc)", "        endtime = datetime.fromtimestamp(int(row[2] / 1000) / 1000, timezone.utc)"),
+    ("c01_sqlite_trunc_ms", "C01", SQ, "        endtime = _EPOCH + timedelta(microseconds=row[2])", "        endtime = _EPOCH + timedelta(milliseconds=int(row[2] / 1000))"),
     ("c01_peewee_round3", "C01", PW, "            duration=event.duration.total_seconds(),\n            datastr=json.dumps(event.data),\n        )", "            duration=round(event.duration.total_seconds(), 3),\n            datastr=json.dumps(event.data),\n        )"),
     ("c01_memory_get_no_deepcopy", "C01", MEM, "        events = events[:limit]\n        # Return\n        return copy.deepcopy(events)", "        events = events[:limit]\n        # Return\n        return [copy.copy(e) for e in events]"),
     ("c01_memory_insert_returns_stored", "C01", MEM, "            self.db[bucket].append(event)\n        return copy.deepcopy(event)", "            self.db[bucket].append(event)\n        return event"),
